@@ -256,6 +256,16 @@ def run_case(case):
                 spec['opts']['ri_whfast512.keep_unsynchronized'] = 1
                 sim = gen.build_sim(spec)
                 sim.t = t0
+            unsafe_keep = False
+            if integ in ('whfast', 'saba') and r.random() < 0.4:
+                # deferred synchronisation with keep_unsynchronized=1: every integrate() ends with a synchronise-for-output that must leave
+                # the internal state alone, so split calls stay bitwise equal to one call
+                unsafe_keep = True
+                spec['opts']['ri_%s.safe_mode' % integ] = 0
+                spec['opts']['ri_%s.keep_unsynchronized' % integ] = 1
+                sim = gen.build_sim(spec)
+                sim.t = t0
+                counters['split_runs_unsafe_keep'] = counters.get('split_runs_unsafe_keep', 0) + 1
             spec2 = json.loads(json.dumps(spec))
             simA = sim
             simB = gen.build_sim(spec2)
@@ -271,8 +281,8 @@ def run_case(case):
                 stB, lg, _ = run(simB, c, exact=False)
                 logB += lg if not logB else lg[1:]       # the first heartbeat of each call repeats the current boundary
             # WHFast512 only writes the particle array when synchronising: per-boundary hashes would compare stale copies
-            ha = [(e[0], e[1], e[3] if integ != 'whfast512' else None) for e in logA]
-            hb_ = [(e[0], e[1], e[3] if integ != 'whfast512' else None) for e in logB]
+            ha = [(e[0], e[1], e[3] if integ != 'whfast512' and not unsafe_keep else None) for e in logA]
+            hb_ = [(e[0], e[1], e[3] if integ != 'whfast512' and not unsafe_keep else None) for e in logB]
             # B may legitimately stop at the same final boundary; compare the common prefix and require the same final state
             m = min(len(ha), len(hb_))
             if ha[:m] != hb_[:m] or len(ha) != len(hb_):
